@@ -907,6 +907,46 @@ class Norm:
             arms = sorted(rest, key=lambda a: a[0]) + last
         return ("match", scr, arms)
 
+    def _expand_wildcard_arm(self, e, arms):
+        """`_ => x` after arms that name variants of a known enum is one arm per remaining variant (so a wildcard and the explicit
+        list of the remaining variants are the same match)"""
+        if self.program is None or len(arms) < 2 or arms[-1][0] != "_" or arms[-1][1] is not None:
+            return arms
+        ty = peel_ty(e["scrut"].get("ty", "")).split("<")[0]
+        adt = None
+        for c in self.program.crates.values():
+            for pth, a in getattr(c, "adts", {}).items():
+                if a.get("kind") == "enum" and (pth == ty or pth.endswith("::" + ty.split("::", 1)[-1]) and pth.split("::")[0] == ty.split("::")[0]):
+                    adt = a
+                    break
+            if adt:
+                break
+        if adt is None or not adt.get("variants"):
+            return arms
+        short = adt["path"].rsplit("::", 1)[-1]
+        named = set()
+        for p, g, _b in arms[:-1]:
+            if g is not None:
+                return arms
+            for alt in p.split("|"):
+                head = alt.split("(")[0].split("{")[0]
+                if not head.startswith(short + "::"):
+                    return arms
+                named.add(head[len(short) + 2:])
+        out = list(arms[:-1])
+        for v in adt["variants"]:
+            if v["name"] in named:
+                continue
+            ctor = str(v.get("ctor"))
+            if "Fn" in ctor:
+                pat = "%s::%s(%s)" % (short, v["name"], ",".join("_" for _f in v["fields"]))
+            elif "Const" in ctor:
+                pat = "%s::%s" % (short, v["name"])
+            else:
+                pat = "%s::%s{}" % (short, v["name"])
+            out.append((pat, None, arms[-1][2]))
+        return out
+
     def _iflet(self, pat, scr, then, els):
         return _mk_iflet(pat, scr, then, els)
 
@@ -1447,6 +1487,7 @@ class Norm:
                         arms.append((pat_repr(q), rewrite(g, ren) if g else g, rewrite(bt, ren)))
                     continue
                 arms.append((pat_repr(a["pat"]), g, bt))
+            arms = self._expand_wildcard_arm(e, arms)
             arms = _expand_bool_tuple_arms(scr, arms)
             # `match x { v => body }` single irrefutable binding arm (format_ident! etc.)
             if len(arms) == 1 and e["arms"][0]["pat"].get("k") == "Bind":
